@@ -113,17 +113,22 @@ def audit(prop):
         return res
     hits = grep_forbidden()
     os.makedirs(os.path.join(LEAN, ".audit"), exist_ok=True)
-    af = os.path.join(LEAN, ".audit", f"Audit_{prop}.lean")
-    with open(af, "w") as f:
-        for m_ in mods:
-            f.write(f"import {m_}\n")
-        for n in obs:
-            f.write(f"#print axioms {n.split('@')[0]}\n")
+    # one audit file per process: two checks of the same property may run side by side (quick and thorough, several seeds)
+    af = os.path.join(LEAN, ".audit", f"Audit_{prop}_{os.getpid()}.lean")
     lk = _lock()
     try:
+        with open(af, "w") as f:
+            for m_ in mods:
+                f.write(f"import {m_}\n")
+            for n in obs:
+                f.write(f"#print axioms {n.split('@')[0]}\n")
         p = subprocess.run(["lake", "env", "lean", af], cwd=LEAN, capture_output=True, text=True, timeout=900)
     finally:
         lk.close()
+        try:
+            os.replace(af, os.path.join(LEAN, ".audit", f"Audit_{prop}.lean"))      # kept under the stable name for `checker_cmd` (atomic)
+        except OSError:
+            pass
     out = p.stdout + p.stderr
     flat = re.sub(r"\s+", " ", out)
     for n in obs:
